@@ -252,17 +252,17 @@ Definition key2_leb (a b : tiv) : bool :=
 Definition sort_full_model (I : list tiv) : list tiv := isort key3_leb I.
 Definition sort_lex_pinned (I : list tiv) : list tiv := isort key2_leb I.
 Definition sort_lex_fixed (I : list tiv) : list tiv := isort key3_leb I.
-Definition sort_lex_model := sort_lex_pinned.        (* <- one-line switch when notes/C08.fix-1.diff is committed *)
+Definition sort_lex_model := sort_lex_fixed.        (* <- one-line switch when notes/C08.fix-1.diff is committed *)
 (* Geometry.sort: unstable argsort of the global start (pinned) — any permutation ordered by this key *)
 Definition geom_sort_leb_pinned := key2_leb.
 Definition geom_sort_leb_fixed := key3_leb.
-Definition geom_sort_leb := geom_sort_leb_pinned.    (* <- one-line switch when notes/C08.fix-3.diff is committed *)
+Definition geom_sort_leb := geom_sort_leb_fixed.    (* <- one-line switch when notes/C08.fix-3.diff is committed *)
 
 (* ---------- clip (intervals.py:416-430), extend_to_size (intervals.py:365-392) ---------- *)
 Definition clip_pinned (size : Z) (i : iv) : iv := (Z.max 0 (fst i), Z.min size (snd i)).
 Definition clip_fixed (size : Z) (i : iv) : iv :=
   (Z.min (Z.max 0 (fst i)) size, Z.max (Z.min size (snd i)) 0).
-Definition clip_one := clip_pinned.                   (* <- one-line switch when notes/C08.fix-2.diff is committed *)
+Definition clip_one := clip_fixed.                   (* <- one-line switch when notes/C08.fix-2.diff is committed *)
 Definition clip_model (size : Z) (I : list iv) : list iv := map (clip_one size) I.
 Definition extend_one (size frag : Z) (t : tiv) : tiv :=
   if t_tag t =? 1 then (t_tag t, t_start t, Z.min (t_start t + frag) size)
